@@ -9,7 +9,7 @@
 (* meaning of a block depends on its own description only).                *)
 (***************************************************************************)
 EXTENDS Naturals, Sequences, FiniteSets, TLC, IOUtils
-NT == IF "VERIF_NTEMPLATES" \in DOMAIN IOEnv THEN (CHOOSE n \in 1..12 : ToString(n) = IOEnv.VERIF_NTEMPLATES) ELSE 4
+NT == IF "VERIF_NTEMPLATES" \in DOMAIN IOEnv THEN (CHOOSE n \in 1..24 : ToString(n) = IOEnv.VERIF_NTEMPLATES) ELSE 4
 BLen == IF "VERIF_BLEN" \in DOMAIN IOEnv THEN (CHOOSE n \in 1..4 : ToString(n) = IOEnv.VERIF_BLEN) ELSE 2
 VARIABLE built
 Init == built = <<>>
